@@ -6,6 +6,9 @@ mod props;
 
 use engine::{Ctx, Tier};
 
+#[global_allocator]
+static GLOBAL: engine::alloc::Counting = engine::alloc::Counting;
+
 fn usage() -> ! {
     eprintln!("usage: pv check <ID> [--tier quick|thorough]\n       pv replay <ID> <file>\n       pv selfcheck\n       pv list");
     std::process::exit(2);
@@ -18,6 +21,7 @@ fn main() {
     }
     let seed: u64 = std::env::var("VERIF_SEED").ok().and_then(|s| s.trim().parse::<i128>().ok()).map(|v| v as u64).unwrap_or(0);
     match args[1].as_str() {
+        "worker" => engine::worker::worker_main(props::entries::lookup),
         "list" => {
             for p in props::all() {
                 println!("{}", p.id);
